@@ -190,6 +190,7 @@ func vIteInt64(c bool, a, b int64) int64 {
 	}
 	return b
 }
+func vFloatSame(x, y float64) bool    { return x == y || (x != x && y != y) }
 func vIsSymbolic(x interface{}) bool { return false }
 func vSymbolicExec() bool            { return false }
 func vConcInt(x int) int             { return x }
